@@ -983,24 +983,43 @@ def _real_tensor(x):
     return _PROXY._real.tensor(x) if "_PROXY" in globals() else torch.tensor(x)
 
 
+def _entry_is_zero(p):
+    """True / False when decidable without knowing parameter values (identically zero / a non-zero constant such as
+    1/sqrt 2), else ValueDependent."""
+    if alg.is_zero(p):
+        return True
+    if not alg.free_names(p):
+        v = alg.evalf(p, {})
+        return abs(v) < 1e-12
+    raise ValueDependent("a comparison whose outcome depends on parameter values: %s" % p.short(60))
+
+
 @H("all")
 def _all(a, *args, **k):
-    A_ = _const_array(a)
-    if A_ is None:
-        raise ValueDependent("all() of a symbolic tensor")
-    return _real_tensor(bool((A_ != 0).all()))
+    if args or k:
+        raise ValueDependent("all() along a dimension of a symbolic tensor")
+    A_ = _obj(a)
+    return _real_tensor(all(not _entry_is_zero(A_[i]) for i in np.ndindex(*A_.shape)))
 
 
 @H("any")
 def _any(a, *args, **k):
-    A_ = _const_array(a)
-    if A_ is None:
-        raise ValueDependent("any() of a symbolic tensor")
-    return _real_tensor(bool((A_ != 0).any()))
+    if args or k:
+        raise ValueDependent("any() along a dimension of a symbolic tensor")
+    A_ = _obj(a)
+    return _real_tensor(any(not _entry_is_zero(A_[i]) for i in np.ndindex(*A_.shape)))
+
+
+@H("equal")
+def _equal(a, b):
+    A_, B_ = _obj(a), _obj(b)
+    if A_.shape != B_.shape:
+        return False
+    return all(_entry_is_zero(A_[i] - B_[i]) for i in np.ndindex(*A_.shape))
 
 
 @H("nonzero", "argmax", "argmin", "max", "min", "sort", "argsort", "unique", "round", "int", "long",
-   "bool", "floor", "ceil", "sign", "where", "isnan", "isinf", "isfinite", "allclose", "equal")
+   "bool", "floor", "ceil", "sign", "where", "isnan", "isinf", "isfinite", "allclose")
 def _valdep(*a, **k):
     raise ValueDependent("value-dependent primitive on a symbolic tensor")
 
